@@ -73,7 +73,7 @@ pub trait FarmBoostedYieldsModule:
 
     fn take_reward_slice(&self, full_reward: BigUint) -> SplitReward<Self::Api> {
         let percentage = self.boosted_yields_rewards_percentage().get();
-        if percentage == 0 {
+        if percentage == 0 || self.boosted_yields_config().is_empty() {
             return SplitReward::new(full_reward, BigUint::zero());
         }
 
